@@ -39,6 +39,7 @@ def probes(rnd):
         ("async-expr", "SELECT ASYNC.VF_SLOW('t', a + 1) AS v FROM t"),
         ("once", "SELECT ONCE.VF_ID(a) AS v FROM t"),
         ("neg", "SELECT -a AS v, ~a AS w, !(a > 1) AS x FROM t"),
+        ("external-function", "SELECT VF_EXT(a) AS v, ASYNC.VF_EXT(s) AS w, VF_EXT(o) AS obj FROM t"),
         ("if", "SELECT IF(a > 1, a + 1, s) AS v FROM t"),
         ("first", "SELECT FIRST(arr) AS f, LAST(arr) AS l, ELEMENTAT(arr, 1) AS e, UNWIND(arr) AS u FROM t"),
         ("changetype", "SELECT CHANGETYPE(a, 'string') AS s1, CHANGETYPE(s, 'array') AS a1, CHANGETYPE(a, 'integer') AS i1 FROM t"),
